@@ -1024,13 +1024,13 @@ bool grew(const Val& before, const Val& after)
 }
 }   // namespace
 
-void oracle_stability(World& w, const Snapshot& before, bool growth_allowed, const char* when)
+void oracle_stability(World& w, const Snapshot& before, bool growth_allowed, const char* when, const char* signature)
 {
    for (auto& [e, old] : before.items) {
       Obs now = observe(e);
       const char* cat = e.aux == Aux::None ? category_name(Category_code(find(old, "category") ? find(old, "category")->num : 0)) : "aux";
       if (now.size() != old.size()) {
-         w.findings.fail(std::string("C05:snapshot-changed:") + cat + ".<shape>", std::string(when) + ": the set of answers changed");
+         w.findings.fail(std::string(signature) + cat + ".<shape>", std::string(when) + ": the set of answers changed");
          continue;
       }
       for (std::size_t i = 0; i < old.size(); ++i) {
@@ -1042,7 +1042,7 @@ void oracle_stability(World& w, const Snapshot& before, bool growth_allowed, con
          // scalars derived from a grown sequence: size(), and a block becoming a try-block with its first handler
          if (growth_allowed && old[i].name == "size" && old[i].val.kind == Val::Num && now[i].val.kind == Val::Num && now[i].val.num > old[i].val.num) continue;
          if (growth_allowed && old[i].name == "try_block") continue;
-         w.findings.fail(std::string("C05:snapshot-changed:") + cat + "." + old[i].name, std::string(when) + ": was " + old[i].val.show() + " now " + now[i].val.show());
+         w.findings.fail(std::string(signature) + cat + "." + old[i].name, std::string(when) + ": was " + old[i].val.show() + " now " + now[i].val.show());
       }
       w.findings.count("reobserved");
    }
